@@ -30,16 +30,39 @@ def decode(target, data):
         return None
     sel, scale, body = data[0], data[1], data[2:]
     if target == "bc":
+        # constructive layout: the bytes describe planted bins (one medium item of 0.3-0.45 C plus two or three fillers that complete the
+        # bin exactly) followed by free extra items - the shape on which best-fit-decreasing is often not optimal, so that the search
+        # of bin completion runs and coverage feedback can steer it
         C = BINSIZES[sel % len(BINSIZES)]
-        n = min(len(body), 11)
-        values = [1 + b % C for b in body[:n]]
-        return {"alg": "bc", "values": values, "binsize": C, "pres": "list" if scale % 3 else "dict-str", "nseed": scale % 6,
+        m = 1 + scale % 4
+        values, i = [], 0
+        for _ in range(m):
+            if i + 3 > len(body) or len(values) >= 8:
+                break
+            a = (3 * C) // 10 + body[i] % max(1, (3 * C) // 20 + 1)
+            rest = C - a
+            p_ = 1 + body[i + 1] % max(1, rest - 1)
+            q = rest - p_
+            pieces = [p_, q]
+            if body[i + 2] % 2 and q >= 2:
+                r = 1 + body[i + 2] % (q - 1)
+                pieces = [p_, r, q - r]
+            values += [a] + [x for x in pieces if x > 0]
+            i += 3
+        for b in body[i:]:
+            if len(values) >= 11:
+                break
+            values.append(1 + b % C)
+        if not values:
+            return None
+        return {"alg": "bc", "values": values[:11], "binsize": C, "pres": "list" if scale % 5 else "dict-str", "nseed": scale % 6,
                 "profile": "fuzz"}
     alg = SEARCH_ALGS[sel % 4]
     k = 2 + (sel // 4) % 4
-    n = min(len(body), SEARCH_SIZES[k])
+    n = SEARCH_SIZES[k] - (scale >> 7)        # always (nearly) the largest size the oracle covers: short inputs are stretched
     mult = [1, 1, 3, 17, 1000][scale % 5]
-    values = [b * mult for b in body[:n]]
+    L = len(body)
+    values = [((body[i % L] + 31 * (i // L)) % 256) * mult for i in range(n)]
     case = {"alg": alg, "values": values, "numbins": k, "pres": "list", "nseed": 0, "profile": "fuzz"}
     if alg == "cg":
         case["opts"] = {"objective": CG_OBJ[(sel // 16) % 3], "switches": [(scale >> 3) & 1, (scale >> 4) & 1, (scale >> 5) & 1, (scale >> 6) & 1]}
@@ -48,9 +71,9 @@ def decode(target, data):
 
 def encode(target, case):
     """The inverse of decode for seeding the corpus with small valid inputs (best effort)."""
-    if target == "bc":
+    if target == "bc":            # free extra items only (no planted part): m = 0 is not expressible, so one dummy planted bin is tolerated
         C = case["binsize"]
-        return bytes([BINSIZES.index(C), 1] + [(v - 1) % 256 for v in case["values"]])
+        return bytes([BINSIZES.index(C), 0, 0, 0, 0] + [(v - 1) % 256 for v in case["values"]][:7])
     k = case["numbins"]
     return bytes([SEARCH_ALGS.index(case["alg"]) + 4 * (k - 2), 0] + [v % 256 for v in case["values"]])
 
